@@ -48,6 +48,12 @@ theorem noOrphans_createTable (s : Pkg) (h : NoOrphans s) (name : List Char) (co
   | some k => exact h
   | none =>
     simp only
+    cases hroom : catalogRoom s name cols with
+    | err k => exact h
+    | panic w => exact h
+    | ok u =>
+    cases u
+    simp only
     obtain ⟨hv, -⟩ := MsiProofs.Synced.createError_name s name cols hce
     simp only [Table.isValidName, Bool.and_eq_true] at hv
     have g1 := noOrphans_insertRows s h Gen.nameColumns.toList (catalogRowsColumns name cols)
